@@ -252,6 +252,7 @@ type Unit struct {
 	lockKeys    map[string]bool
 	seqFacts    map[string]bool
 	concurrent  bool // the unit's function is declared `opt concurrent yes`
+	interference bool // `opt interference yes`: acquiring a mutex havocs the add-only maps it guards (other threads ran)
 	guardOrigin map[string]guardOrigin // value term -> mutex that guards the contents of that map
 	opaqueDefs  map[string]*opaqueDef
 	hintTags    map[string]string // property tag -> flag constant enabling the hints of that tag
@@ -278,7 +279,7 @@ func (u *Unit) AddObl(name, kind, text string, reach, goal Term, pos token.Posit
 		return nil
 	}
 	u.nameCnt[name]++
-	if n := u.nameCnt[name]; n > 1 || kind == "safety" || kind == "frame" || kind == "requires" || kind == "lock" {
+	if n := u.nameCnt[name]; n > 1 || kind == "safety" || kind == "frame" || kind == "frame-unmodelled" || kind == "requires" || kind == "lock" {
 		name = fmt.Sprintf("%s #%d", name, n)
 	}
 	o := &Obligation{Name: name, Kind: kind, Text: text, Goal: goal, Reach: reach, NAsserts: len(u.asserts), NDecls: len(u.W.decls), Pos: pos, Func: fn, Unit: u}
